@@ -249,6 +249,46 @@ func init() {
 
 // ssaMapIsFresh: the *LVal / Map value is, on every path, the result of a
 // fresh-returning constructor or of copying.
+// ssaResultFreshMap: callee is a function of this module with a body, and the
+// idx-th operand of every one of its returns is nil or a fresh map value.
+var ssaResultFreshMemo = map[string]int{}
+
+func ssaResultFreshMap(callee *ssa.Function, idx int, fresh map[*types.Func]bool, depth int) bool {
+	if callee == nil || len(callee.Blocks) == 0 || depth > 6 || callee.Pkg == nil || !strings.HasPrefix(callee.Pkg.Pkg.Path(), modPath) {
+		return false
+	}
+	key := fmt.Sprintf("%p:%d", callee, idx)
+	if v, ok := ssaResultFreshMemo[key]; ok {
+		return v == 1
+	}
+	ssaResultFreshMemo[key] = 0
+	nret := 0
+	for _, b := range callee.Blocks {
+		for _, ins := range b.Instrs {
+			ret, ok := ins.(*ssa.Return)
+			if !ok {
+				continue
+			}
+			nret++
+			if idx >= len(ret.Results) {
+				return false
+			}
+			r := ret.Results[idx]
+			if c, isConst := r.(*ssa.Const); isConst && c.IsNil() {
+				continue
+			}
+			if !ssaMapIsFresh(r, fresh, depth+1, map[ssa.Value]bool{}) {
+				return false
+			}
+		}
+	}
+	if nret == 0 {
+		return false
+	}
+	ssaResultFreshMemo[key] = 1
+	return true
+}
+
 func ssaMapIsFresh(v ssa.Value, fresh map[*types.Func]bool, depth int, seen map[ssa.Value]bool) bool {
 	if v == nil || depth > 8 {
 		return false
@@ -281,8 +321,18 @@ func ssaMapIsFresh(v ssa.Value, fresh map[*types.Func]bool, depth int, seen map[
 		case "lisp.newmap", "lisp.(*LVal).copyMapData", "lisp.SortedMap", "lisp.SortedMapFromData":
 			return true
 		}
+		if callee.Signature.Results().Len() == 1 && ssaResultFreshMap(callee, 0, fresh, depth+1) {
+			return true
+		}
 		return false
 	case *ssa.Extract:
+		// k-th result of a helper of this module: fresh when every return of the helper
+		// gives nil or a map it created / copied in that position (mapCopyForUpdate)
+		if call, ok := x.Tuple.(*ssa.Call); ok {
+			if callee := call.Call.StaticCallee(); callee != nil && ssaResultFreshMap(callee, x.Index, fresh, depth+1) {
+				return true
+			}
+		}
 		return ssaMapIsFresh(x.Tuple, fresh, depth+1, seen)
 	case *ssa.MakeInterface:
 		return ssaMapIsFresh(x.X, fresh, depth+1, seen)
